@@ -68,6 +68,7 @@ def from_scratch_norm(b):
 
 
 def run_history(spec, hseed, steps, driver, props):
+    ce.BASE = ce.FUTURE if hseed % 4 == 3 else ce.PAST      # every fourth history plays in the future of the machine's clock
     rng = random.Random(hseed)
     env = ce.Env()
     b = ce.build_cache(spec, env)
